@@ -1838,6 +1838,21 @@ def c16(tier):
     scs.append({"sc": "fixture", "hex": fx.hex(), "expect": [],
                 "pwq": [{"i": k, "kind": kd, "pw": (b"helloworld" if kd == "right" else b"wrong").hex() if kd != "none" else ""}
                         for k in range(4) for kd in ("none", "wrong")]})
+    # AES entries must still decrypt after the crate rewrote the directory around them (an append round): the rewritten central
+    # records keep method 99 and the AE-x record, next to whatever other records (a ZIP64 record whose values no longer have a
+    # marker to answer to) the entry carries
+    aps = []
+    for j in range(4 if tier == "quick" else 24):
+        ents = [{"name": b"a/stored-%d" % j, "method": 0, "data": bytes((3 * k_ + j) % 251 for k_ in range(66000 + j)), "enc": ("aes", 1 + j % 2, 1 + j % 3, b"append-pw"),
+                 "z64": {"usize", "csize"} if j % 2 == 0 else set(), "lz64": j % 2 == 0, "aes_first": j % 4 < 2},
+                {"name": b"a/deflate-%d" % j, "method": 8, "data": b"aes deflate %d " % j * 40, "enc": ("aes", 2 - j % 2, 3, b"append-pw"),
+                 "cextra": [(0x5455, b"\x01" + bytes(4))], "aes_first": j % 2 == 1},
+                {"name": b"a/plain", "method": 8, "data": b"plain " * 20}]
+        fb, _ = refzip.build({"entries": ents})
+        aps.append({"sc": "aes-append-%d" % j, "ops": [{"op": "Load", "hex": fb.hex(), "pws": [b"append-pw".hex()]}, {"op": "NewAppend", "arch": 0},
+                                                      {"op": "StartFile", "name": "appended", "method": 8}, {"op": "Write", "data": "new"}, {"op": "Finish"},
+                                                      {"op": "NewAppend", "arch": 1}, {"op": "Finish"}]})
+    run_writer_programs(rep, wd, aps, "aes-append", neg_control=False)
     # the AE-x record among the other records of an entry, at model level (Producer.tla: the record before / after unknown records,
     # the ZIP64 record placed before / after all of them; defect D18 as reader mutant aes_swallows_next) and every realisable
     # encrypted one-entry archive of that model built by the independent builder and opened with the right password
